@@ -703,6 +703,8 @@ Proof. intros HR sl pk Hsl. rewrite !HR by (simpl; exact Hsl). rewrite query_att
 
 Section Sim.
 Variable D spe : N.
+Variable fm : fmode.
+Variable ff : bool.
 Hypothesis HD : 0 < D.
 Hypothesis Hs : 0 < spe.
 
@@ -751,7 +753,7 @@ Ltac six := split; [|split; [|split; [|split; [|split]]]].
 
 Lemma resolve_sim b s g slot r s' :
   Sim b s g -> b <= slot -> epoch_of spe slot <= epoch_of spe b + 1 ->
-  wf_resn spe r = true -> resolve spe s slot r = Some s' ->
+  wf_resn spe r = true -> resolve spe fm s slot r = Some s' ->
   Sim b s' (gres spe g slot r) /\ expect s' = expect s /\ now s' = now s
   /\ g_trig (gres spe g slot r) = g_trig g /\ g_now (gres spe g slot r) = g_now g
   /\ QB slot g (gres spe g slot r).
@@ -844,37 +846,37 @@ Proof.
   - destruct (3 <=? ep); [|exact H4]. destruct H4. split; apply trim_inv; assumption.
 Qed.
 
-Definition exp_for (log : list item) (slot : N) (tys : list dtype) : list trigger :=
-  flat_map (fun ty => match query spe log (ty, slot) with
-                      | [] => []
-                      | ds => [T ty slot ds (deadline D ty slot)]
-                      end) tys.
+Notation exp_for := (Scheduler.exp_for D spe fm).
+Notation pend_for := (Scheduler.pend_for D spe fm).
 
-Lemma expected_exp_for log slot : expected D spe log slot = exp_for log slot types.
+Lemma expected_exp_for log slot : expected D spe fm log slot = exp_for log slot types.
 Proof. reflexivity. Qed.
 
 Lemma exp_for_in log slot tys tr :
   In tr (exp_for log slot tys) ->
   In (t_ty tr) tys /\ t_slot tr = slot /\ t_defs tr = query spe log (t_ty tr, slot) /\ t_defs tr <> []
-  /\ t_deadline tr = deadline D (t_ty tr) slot.
+  /\ t_deadline tr = deadline D (t_ty tr) slot /\ fire_later fm (t_ty tr) = false.
 Proof.
-  unfold exp_for. intro H. apply in_flat_map in H. destruct H as [ty [Hty H]].
+  unfold Scheduler.exp_for. intro H. apply in_flat_map in H. destruct H as [ty [Hty H]].
   destruct (query spe log (ty, slot)) as [|x xs] eqn:E; [destruct H|].
-  destruct H as [<-|[]]. simpl. rewrite E. repeat split; [exact Hty | discriminate].
+  destruct (fire_later fm ty) eqn:Ef; [destruct H|].
+  destruct H as [<-|[]]. simpl. rewrite E. repeat split; [exact Hty | discriminate | exact Ef].
 Qed.
 
 Lemma exp_for_complete log slot tys ty :
-  In ty tys -> query spe log (ty, slot) <> [] ->
+  In ty tys -> query spe log (ty, slot) <> [] -> fire_later fm ty = false ->
   In (T ty slot (query spe log (ty, slot)) (deadline D ty slot)) (exp_for log slot tys).
 Proof.
-  intros Hty Hne. unfold exp_for. apply in_flat_map. exists ty. split; [exact Hty|].
-  destruct (query spe log (ty, slot)) as [|x xs]; [congruence | left; reflexivity].
+  intros Hty Hne Hf. unfold Scheduler.exp_for. apply in_flat_map. exists ty. split; [exact Hty|].
+  destruct (query spe log (ty, slot)) as [|x xs]; [congruence|]. rewrite Hf. left. reflexivity.
 Qed.
 
-Lemma exp_for_types log slot tys : map t_ty (exp_for log slot tys) = filter (fun ty => match query spe log (ty, slot) with [] => false | _ => true end) tys.
+Lemma exp_for_types log slot tys :
+  map t_ty (exp_for log slot tys) =
+  filter (fun ty => match query spe log (ty, slot) with [] => false | _ => negb (fire_later fm ty) end) tys.
 Proof.
-  induction tys as [|ty r IH]; [reflexivity|]. unfold exp_for in *. simpl. rewrite map_app, IH.
-  destruct (query spe log (ty, slot)); reflexivity.
+  induction tys as [|ty r IH]; [reflexivity|]. unfold Scheduler.exp_for in *. simpl. rewrite map_app, IH.
+  destruct (query spe log (ty, slot)); [reflexivity|]. destruct (fire_later fm ty); reflexivity.
 Qed.
 
 Lemma exp_for_nodup log slot tys : NoDup tys -> NoDup (map trig_duty (exp_for log slot tys)).
@@ -889,66 +891,148 @@ Proof.
 Qed.
 
 Lemma exp_for_qb log log' slot tys :
-  (forall d, snd d < slot + 1 -> query spe log' d = query spe log d) -> exp_for log' slot tys = exp_for log slot tys.
+  (forall d, snd d < slot + 1 -> query spe log' d = query spe log d) ->
+  exp_for log' slot tys = exp_for log slot tys /\ pend_for log' slot tys = pend_for log slot tys
+  /\ with_defs spe log' slot tys = with_defs spe log slot tys.
 Proof.
-  intro H. unfold exp_for. apply flat_map_ext. intro ty. rewrite H by (simpl; lia). reflexivity.
+  intro H. unfold Scheduler.exp_for, Scheduler.pend_for, with_defs. split; [|split].
+  - apply flat_map_ext. intro ty. rewrite H by (simpl; lia). reflexivity.
+  - apply flat_map_ext. intro ty. rewrite H by (simpl; lia). reflexivity.
+  - apply filter_ext. intro ty. rewrite H by (simpl; lia). reflexivity.
 Qed.
+
+Lemma pend_for_in log slot tys w :
+  In w (pend_for log slot tys) ->
+  flags_on fm = true /\ In Attester tys /\ w = (slot, query spe log (Attester, slot), att_due D fm slot)
+  /\ query spe log (Attester, slot) <> [].
+Proof.
+  unfold Scheduler.pend_for. intro H. apply in_flat_map in H. destruct H as [ty [Hty H]].
+  destruct (query spe log (ty, slot)) as [|x xs] eqn:E; [destruct H|].
+  destruct (fire_later fm ty) eqn:Ef; [|destruct H]. destruct H as [<-|[]].
+  unfold fire_later in Ef. apply andb_true_iff in Ef. destruct Ef as [Ef1 Ef2]. apply dtype_eqb_eq in Ef2. subst ty.
+  rewrite E. repeat split; try assumption. discriminate.
+Qed.
+
+Lemma gres_pend g slot r : g_pend (gres spe g slot r) = g_pend g.
+Proof.
+  unfold gres.
+  repeat match goal with
+  | |- context [match ?x with _ => _ end] => destruct x
+  end; reflexivity.
+Qed.
+
+Lemma g_rest_pend k g slot sc : g_pend (g_rest spe k g slot sc) = g_pend g.
+Proof.
+  revert g sc. induction k as [|k IH]; intros g sc; [reflexivity|]. destruct sc as [|rn sc0]; [reflexivity|].
+  simpl. rewrite IH. apply gres_pend.
+Qed.
+
+Lemma resolve_frame s slot r s' :
+  resolve spe fm s slot r = Some s' -> expect s' = expect s /\ now s' = now s /\ pend s' = pend s.
+Proof.
+  unfold resolve. intro H.
+  repeat match type of H with
+  | context [match ?x with _ => _ end] => destruct x
+  | context [if ?x then _ else _] => destruct x
+  end; try discriminate; injection H as <-; repeat split; reflexivity.
+Qed.
+
+Lemma sim_with_pend b s g p : Sim b s g -> Sim b (with_pend s p) g.
+Proof. intros [H1 H2 H3 H4 H5]. constructor; assumption. Qed.
 
 Lemma tick_loop_sim t tys :
   forall s g sc s' sc' outs,
   Sim t s g -> expect s = t + 1 -> forallb (wf_resn spe) sc = true ->
-  tick_loop D spe tys t s sc = Some (s', sc', outs) ->
+  tick_loop D spe fm tys t s sc = Some (s', sc', outs) ->
   outs = exp_for (g_log g) t tys /\
-  let g' := g_rest spe (if last_in_epoch spe t then length outs else 0%nat) g (t + 1) sc in
-  Sim t s' g' /\ expect s' = t + 1 /\ now s' = now s /\ g_trig g' = g_trig g /\ g_now g' = g_now g.
+  let g' := g_rest spe (if last_in_epoch spe t then length (with_defs spe (g_log g) t tys) else 0%nat) g (t + 1) sc in
+  Sim t s' g' /\ expect s' = t + 1 /\ now s' = now s /\ g_trig g' = g_trig g /\ g_now g' = g_now g
+  /\ pend s' = pend s ++ pend_for (g_log g) t tys.
 Proof.
   induction tys as [|ty r IH]; intros s g sc s' sc' outs HS Hex Hwf H.
   - simpl in H. injection H as <- <- <-. split; [reflexivity|].
-    assert (Hg : g_rest spe (if last_in_epoch spe t then length (@nil trigger) else 0%nat) g (t + 1) sc = g)
+    assert (Hg : g_rest spe (if last_in_epoch spe t then length (@nil dtype) else 0%nat) g (t + 1) sc = g)
       by (destruct (last_in_epoch spe t); destruct sc; reflexivity).
-    simpl. simpl in Hg. rewrite Hg. split; [exact HS|]. split; [exact Hex|]. split; [reflexivity|]. split; reflexivity.
+    simpl. simpl in Hg. rewrite Hg. split; [exact HS|]. split; [exact Hex|]. split; [reflexivity|].
+    split; [reflexivity|]. split; [reflexivity|]. rewrite app_nil_r. reflexivity.
   - simpl in H.
     assert (Hq : fst (store s) (ty, t) = query spe (g_log g) (ty, t)).
     { apply (sim_rel _ _ _ HS). simpl. lia. }
-    rewrite Hq in H. unfold exp_for. simpl. fold (exp_for (g_log g) t r).
+    rewrite Hq in H. unfold Scheduler.exp_for, Scheduler.pend_for, with_defs. simpl.
+    fold (exp_for (g_log g) t r). fold (pend_for (g_log g) t r). fold (with_defs spe (g_log g) t r).
     destruct (query spe (g_log g) (ty, t)) as [|x xs] eqn:Eq.
     + simpl. apply (IH s g sc s' sc' outs HS Hex Hwf H).
-    + destruct (last_in_epoch spe t) eqn:El.
+    + set (ds := x :: xs) in *.
+      set (s0 := if fire_later fm ty then with_pend s (pend s ++ [(t, ds, att_due D fm t)]) else s) in *.
+      assert (HS0 : Sim t s0 g) by (unfold s0; destruct (fire_later fm ty); [apply sim_with_pend|]; exact HS).
+      assert (Hex0 : expect s0 = t + 1) by (unfold s0; destruct (fire_later fm ty); exact Hex).
+      assert (Hnow0 : now s0 = now s) by (unfold s0; destruct (fire_later fm ty); reflexivity).
+      assert (Hp0 : pend s0 = pend s ++ (if fire_later fm ty then [(t, ds, att_due D fm t)] else []))
+        by (unfold s0; destruct (fire_later fm ty); [reflexivity | simpl; rewrite app_nil_r; reflexivity]).
+      cbn [nonempty length].
+      destruct (last_in_epoch spe t) eqn:El.
       * destruct sc as [|rn sc0]; [discriminate|].
         simpl in Hwf. apply andb_true_iff in Hwf. destruct Hwf as [Hwrn Hwf0].
-        destruct (resolve spe s (t + 1) rn) as [s1|] eqn:Er; [|discriminate].
-        destruct (tick_loop D spe r t s1 sc0) as [[[s2 sc2] outs2]|] eqn:Et; [|discriminate].
+        destruct (resolve spe fm s0 (t + 1) rn) as [s1|] eqn:Er; [|discriminate].
+        destruct (tick_loop D spe fm r t s1 sc0) as [[[s2 sc2] outs2]|] eqn:Et; [|discriminate].
         injection H as <- <- <-.
         assert (Hb : t <= t + 1) by lia.
-        destruct (resolve_sim t s g (t + 1) rn s1 HS Hb (epoch_succ spe t Hs) Hwrn Er)
+        destruct (resolve_sim t s0 g (t + 1) rn s1 HS0 Hb (epoch_succ spe t Hs) Hwrn Er)
           as [HS1 [Hex1 [Hnow1 [Htr1 [Hgn1 HQ1]]]]].
-        rewrite Hex in Hex1.
+        destruct (resolve_frame _ _ _ _ Er) as [_ [_ Hp1]].
+        rewrite Hex0 in Hex1.
         destruct (IH s1 (gres spe g (t + 1) rn) sc0 s2 sc2 outs2 HS1 Hex1 Hwf0 Et) as [Houts IHr].
-        simpl in IHr.
+        destruct (exp_for_qb (g_log g) (g_log (gres spe g (t + 1) rn)) t r HQ1) as [Q1 [Q2 Q3]].
+        simpl in IHr. rewrite Q2, Q3 in IHr.
         split.
-        -- simpl. f_equal. rewrite Houts. apply exp_for_qb. exact HQ1.
-        -- simpl. destruct IHr as [A [B [C [E F]]]].
-           split; [exact A|]. split; [exact B|]. split; [congruence|]. split; congruence.
-      * destruct (tick_loop D spe r t s sc) as [[[s2 sc2] outs2]|] eqn:Et; [|discriminate].
+        -- rewrite Houts, Q1. destruct (fire_later fm ty); reflexivity.
+        -- simpl. destruct IHr as [A [B [C [E [F G]]]]].
+           split; [exact A|]. split; [exact B|]. split; [congruence|]. split; [congruence|]. split; [congruence|].
+           now rewrite G, Hp1, Hp0, <- app_assoc.
+      * destruct (tick_loop D spe fm r t s0 sc) as [[[s2 sc2] outs2]|] eqn:Et; [|discriminate].
         injection H as <- <- <-.
-        destruct (IH s g sc s2 sc2 outs2 HS Hex Hwf Et) as [Houts IHr].
-        split; [simpl; f_equal; exact Houts|].
-        simpl. simpl in IHr.
-        exact IHr.
+        destruct (IH s0 g sc s2 sc2 outs2 HS0 Hex0 Hwf Et) as [Houts IHr].
+        split; [rewrite Houts; destruct (fire_later fm ty); reflexivity|].
+        simpl. simpl in IHr. destruct IHr as [A [B [C [E [F G]]]]].
+        split; [exact A|]. split; [exact B|]. split; [congruence|]. split; [exact E|]. split; [exact F|].
+        now rewrite G, Hp0, <- app_assoc.
 Qed.
 
 End Sim.
 
 (* ---- every accepted well-formed trace passes the monitor ---- *)
 
+Lemma find_w_some slot l w : find_w slot l = Some w -> In w l /\ w_slot w = slot.
+Proof. unfold find_w. intro H. apply find_some in H. destruct H as [H1 H2]. apply N.eqb_eq in H2. auto. Qed.
+
+Lemma remove_w_in slot l w : In w (remove_w slot l) <-> In w l /\ w_slot w <> slot.
+Proof.
+  unfold remove_w. rewrite filter_In. split; intros [H1 H2]; split; try assumption.
+  - apply negb_true_iff in H2. apply N.eqb_neq in H2. exact H2.
+  - apply negb_true_iff. apply N.eqb_neq. exact H2.
+Qed.
+
+Lemma nodup_map_filter {A B} (f : A -> B) (p : A -> bool) l : NoDup (map f l) -> NoDup (map f (filter p l)).
+Proof.
+  induction l as [|x r IH]; simpl; intro H; [constructor|]. inversion H as [|? ? Hx Hr]; subst.
+  destruct (p x); simpl; [|apply IH; exact Hr]. constructor; [|apply IH; exact Hr].
+  intro Hin. apply Hx. apply in_map_iff in Hin. destruct Hin as [y [Hy Hin]]. apply filter_In in Hin.
+  rewrite <- Hy. apply in_map. tauto.
+Qed.
+
 Section Main.
 Variable D spe : N.
+Variable fm : fmode.
+Variable ff : bool.
 Hypothesis HD : 0 < D.
 Hypothesis Hs : 0 < spe.
 
 Record Inv (s : state) (g : ghost) : Prop := {
   inv_sim : Sim spe (expect s) s g;
-  inv_trig : forall d, In d (g_trig g) -> snd d < expect s
+  inv_trig : forall d, In d (g_trig g) -> snd d < expect s;
+  inv_pend : pend s = g_pend g;
+  inv_pslot : forall w, In w (g_pend g) -> w_slot w < expect s /\ ~ In (Attester, w_slot w) (g_trig g);
+  inv_pnd : NoDup (map w_slot (g_pend g))
 }.
 
 Lemma ticker_facts s t :
@@ -975,81 +1059,124 @@ Proof.
     + split; [intros d H; simpl in H; congruence | intros ep d H; destruct H].
     + intros it H. destruct H.
   - intros d H. destruct H.
+  - reflexivity.
+  - intros w H. destruct H.
+  - constructor.
+Qed.
+
+Lemma pend_for_types log t :
+  pend_for D spe fm log t types =
+  match query spe log (Attester, t) with
+  | [] => []
+  | ds => if flags_on fm then [(t, ds, att_due D fm t)] else []
+  end.
+Proof.
+  unfold pend_for, types, fire_later. simpl.
+  destruct (query spe log (Proposer, t)), (query spe log (Attester, t)), (query spe log (Aggregator, t)),
+    (query spe log (SyncContribution, t)), (flags_on fm); reflexivity.
+Qed.
+
+Lemma g_first_pend g t sc : g_pend (fst (g_first spe g t sc)) = g_pend g.
+Proof.
+  unfold g_first. destruct (optN_is (g_resolved g) (epoch_of spe t)); [reflexivity|].
+  destruct sc; [reflexivity|]. simpl. apply gres_pend.
 Qed.
 
 Lemma sched_slot_sim t s0 g sc s' sc' exp :
   Sim spe t s0 g -> expect s0 = t + 1 -> forallb (wf_resn spe) sc = true ->
-  sched_slot D spe s0 t sc = Some (s', sc', exp) ->
-  exp = expected D spe (g_log (fst (g_first spe g t sc))) t /\
-  let g2 := g_rest spe (if last_in_epoch spe t then length exp else 0%nat)
+  sched_slot D spe fm s0 t sc = Some (s', sc', exp) ->
+  exp = expected D spe fm (g_log (fst (g_first spe g t sc))) t /\
+  let g2 := g_rest spe (if last_in_epoch spe t then length (with_defs spe (g_log (fst (g_first spe g t sc))) t types) else 0%nat)
                    (fst (g_first spe g t sc)) (t + 1) (snd (g_first spe g t sc)) in
-  Sim spe t s' g2 /\ expect s' = t + 1 /\ now s' = now s0 /\ g_trig g2 = g_trig g /\ g_now g2 = g_now g.
+  Sim spe t s' g2 /\ expect s' = t + 1 /\ now s' = now s0 /\ g_trig g2 = g_trig g /\ g_now g2 = g_now g
+  /\ pend s' = pend s0 ++ pend_for D spe fm (g_log (fst (g_first spe g t sc))) t types.
 Proof.
   intros HS Hex Hwf H. unfold sched_slot in H. unfold g_first.
   rewrite <- (sim_res _ _ _ _ HS).
   destruct (optN_is (resolved s0) (epoch_of spe t)).
-  - simpl. rewrite expected_exp_for.
-    apply (tick_loop_sim D spe HD Hs t types s0 g sc s' sc' exp HS Hex Hwf H).
+  - cbn [fst snd]. rewrite expected_exp_for.
+    apply (tick_loop_sim D spe fm HD Hs t types s0 g sc s' sc' exp HS Hex Hwf H).
   - destruct sc as [|rn sc0]; [discriminate|].
     simpl in Hwf. apply andb_true_iff in Hwf. destruct Hwf as [Hwrn Hwf0].
-    destruct (resolve spe s0 t rn) as [s1|] eqn:Er; [|discriminate].
+    destruct (resolve spe fm s0 t rn) as [s1|] eqn:Er; [|discriminate].
     assert (Hb : t <= t) by lia.
     assert (Hep : epoch_of spe t <= epoch_of spe t + 1) by lia.
-    destruct (resolve_sim D spe HD Hs t s0 g t rn s1 HS Hb Hep Hwrn Er) as [HS1 [Hex1 [Hnow1 [Htr1 [Hgn1 _]]]]].
-    rewrite Hex in Hex1. simpl. rewrite expected_exp_for.
-    destruct (tick_loop_sim D spe HD Hs t types s1 (gres spe g t rn) sc0 s' sc' exp HS1 Hex1 Hwf0 H) as [He [A [B [C [E F]]]]].
-    split; [exact He|]. simpl. split; [exact A|]. split; [exact B|]. split; [congruence|]. split; congruence.
+    destruct (resolve_sim D spe fm HD Hs t s0 g t rn s1 HS Hb Hep Hwrn Er) as [HS1 [Hex1 [Hnow1 [Htr1 [Hgn1 _]]]]].
+    destruct (resolve_frame _ _ _ _ _ _ Er) as [_ [_ Hp1]].
+    rewrite Hex in Hex1. cbn [fst snd]. rewrite expected_exp_for.
+    destruct (tick_loop_sim D spe fm HD Hs t types s1 (gres spe g t rn) sc0 s' sc' exp HS1 Hex1 Hwf0 H) as [He [A [B [C [E [F G]]]]]].
+    split; [exact He|]. cbv zeta. split; [exact A|]. split; [exact B|]. split; [congruence|]. split; [congruence|].
+    split; congruence.
 Qed.
 
 Lemma types_nodup : NoDup types.
 Proof. unfold types. repeat constructor; simpl; intuition discriminate. Qed.
 
 Lemma step_sound s g l s' :
-  Inv s g -> wf_label spe l = true -> step D spe s l = Some s' ->
-  check D spe g l = true /\ Inv s' (gstep D spe g l).
+  Inv s g -> wf_label spe l = true -> step D spe fm ff s l = Some s' ->
+  check D spe fm g l = true /\ Inv s' (gstep D spe fm g l).
 Proof.
-  intros [HS HT] Hwf H. destruct l as [dt|t sc outs|ep|].
+  intros [HS HT HP HPS HPN] Hwf H. destruct l as [dt|t sc outs|ep|hslot fetch|fslot fdefs|].
   - (* LAdv *)
     simpl in H. injection H as <-. split; [reflexivity|]. destruct HS as [H1 H2 H3 H4 H5].
-    constructor; [constructor; simpl; try assumption; congruence | exact HT].
+    constructor; simpl; try assumption. constructor; simpl; try assumption; congruence.
   - (* LTick *)
     simpl in H. simpl in Hwf.
     destruct (ticker_enabled D s && (t =? ticker_slot D s)) eqn:Een; [|discriminate].
     apply andb_true_iff in Een. destruct Een as [Een Et]. apply N.eqb_eq in Et.
     destruct (ticker_facts s t Een Et) as [Hge Hstart].
-    set (s0 := mk (now s) (t + 1) (resolved s) (store s)) in *.
+    set (s0 := mk (now s) (t + 1) (resolved s) (store s) (eta s) (pend s)) in *.
     assert (HS0 : Sim spe t s0 g).
     { apply (sim_weaken (expect s) t s g Hge) in HS. destruct HS as [H1 H2 H3 H4 H5]. constructor; assumption. }
-    destruct (sched_slot D spe s0 t sc) as [[[s1 sc1] exp]|] eqn:Esch; [|discriminate].
+    destruct (sched_slot D spe fm s0 t sc) as [[[s1 sc1] exp]|] eqn:Esch; [|discriminate].
     destruct sc1; [|discriminate].
     destruct (same_set trig_eqb outs exp) eqn:Ess; [|discriminate]. injection H as <-.
-    destruct (sched_slot_sim t s0 g sc s1 [] exp HS0 eq_refl Hwf Esch) as [Hexp [HS1 [Hex1 [Hnow1 [Htr1 Hgn1]]]]].
-    assert (Hduty : forall tr, In tr outs -> trig_duty tr = (t_ty tr, t)).
+    destruct (sched_slot_sim t s0 g sc s1 [] exp HS0 eq_refl Hwf Esch) as [Hexp [HS1 [Hex1 [Hnow1 [Htr1 [Hgn1 Hpe1]]]]]].
+    assert (Hduty : forall tr, In tr outs -> trig_duty tr = (t_ty tr, t) /\ fire_later fm (t_ty tr) = false).
     { intros tr Htr. destruct (same_set_in_l trig_eqb outs exp tr Ess Htr) as [y [Hy Hey]].
-      apply trig_eqb_duty in Hey. rewrite Hexp, expected_exp_for in Hy. apply exp_for_in in Hy.
-      unfold trig_duty in *. destruct Hy as [_ [Hsl _]]. rewrite Hsl in Hey. injection Hey as _ ->. reflexivity. }
+      pose proof (trig_eqb_duty _ _ Hey) as Hd. rewrite Hexp, expected_exp_for in Hy. apply exp_for_in in Hy.
+      unfold trig_duty in *. destruct Hy as [_ [Hsl [_ [_ [_ Hfl]]]]]. rewrite Hsl in Hd. injection Hd as Hty ->.
+      rewrite Hty. auto. }
     split.
     + unfold check. destruct (g_first spe g t sc) as [g1 sc1'] eqn:Egf. simpl in Hexp.
       rewrite <- Hexp, Ess, andb_true_r.
       apply andb_true_iff. split; [apply andb_true_iff; split|].
       * apply N.leb_le. rewrite <- (sim_now _ _ _ _ HS). exact Hstart.
       * apply forallb_forall. intros tr Htr. apply negb_true_iff. apply mem_duty_false. intro Hin.
-        apply HT in Hin. rewrite (Hduty tr Htr) in Hin. simpl in Hin. lia.
+        apply HT in Hin. rewrite (proj1 (Hduty tr Htr)) in Hin. simpl in Hin. lia.
       * apply NoDup_nodup_duty.
         destruct (same_set_keys trig_eqb trig_duty outs exp trig_eqb_duty Ess) as [Hlen [_ Hincl]].
         apply (@NoDup_incl_NoDup _ (map trig_duty exp)).
         -- rewrite Hexp, expected_exp_for. apply exp_for_nodup. apply types_nodup.
         -- rewrite !map_length. rewrite Hlen. apply le_n.
         -- exact Hincl.
-    + unfold gstep. destruct (g_first spe g t sc) as [g1 sc1'] eqn:Egf. simpl in Hexp, HS1, Htr1, Hgn1.
-      rewrite <- Hexp.
-      set (g2 := g_rest spe (if last_in_epoch spe t then length exp else 0%nat) g1 (t + 1) sc1') in *.
-      constructor.
+    + unfold gstep. pose proof (g_first_pend g t sc) as Hgfp.
+      destruct (g_first spe g t sc) as [g1 sc1'] eqn:Egf. cbn [fst snd] in Hexp, HS1, Htr1, Hgn1, Hpe1, Hgfp.
+      set (k := if last_in_epoch spe t then length (with_defs spe (g_log g1) t types) else 0%nat) in *.
+      set (g2 := g_rest spe k g1 (t + 1) sc1') in *.
+      assert (Hg2p : g_pend g2 = g_pend g) by (unfold g2; rewrite g_rest_pend; exact Hgfp).
+      assert (Hnew : forall w, In w (pend_for D spe fm (g_log g1) t types) -> w_slot w = t /\ flags_on fm = true).
+      { intros w Hw. apply pend_for_in in Hw. destruct Hw as [Hf [_ [-> _]]]. auto. }
+      constructor; cbn [g_trig g_pend g_log g_now g_resolved].
       * rewrite Hex1. apply (sim_weaken t (t + 1)); [lia|].
-        destruct HS1 as [H1 H2 H3 H4 H5]. constructor; simpl; assumption.
-      * simpl. rewrite Hex1. intros d Hd. apply in_app_or in Hd. destruct Hd as [Hd|Hd].
+        destruct HS1 as [H1 H2 H3 H4 H5]. constructor; cbn [g_trig g_pend g_log g_now g_resolved]; assumption.
+      * rewrite Hex1. intros d Hd. apply in_app_or in Hd. destruct Hd as [Hd|Hd].
         -- rewrite Htr1 in Hd. apply HT in Hd. lia.
-        -- apply in_map_iff in Hd. destruct Hd as [tr [<- Htr]]. rewrite (Hduty tr Htr). simpl. lia.
+        -- apply in_map_iff in Hd. destruct Hd as [tr [<- Htr]]. rewrite (proj1 (Hduty tr Htr)). simpl. lia.
+      * rewrite Hpe1, Hg2p. change (pend s0) with (pend s). rewrite HP. reflexivity.
+      * rewrite Hex1, Hg2p, Htr1. intros w Hw. apply in_app_or in Hw. destruct Hw as [Hw|Hw].
+        -- destruct (HPS w Hw) as [A B]. split; [lia|]. intro Hin. apply in_app_or in Hin. destruct Hin as [Hin|Hin]; [tauto|].
+           apply in_map_iff in Hin. destruct Hin as [tr [Hd Htr]]. rewrite (proj1 (Hduty tr Htr)) in Hd.
+           injection Hd as _ Hd. lia.
+        -- destruct (Hnew w Hw) as [A B]. rewrite A. split; [lia|]. intro Hin. apply in_app_or in Hin.
+           destruct Hin as [Hin|Hin]; [apply HT in Hin; simpl in Hin; lia|].
+           apply in_map_iff in Hin. destruct Hin as [tr [Hd Htr]]. destruct (Hduty tr Htr) as [Hd1 Hd2].
+           rewrite Hd1 in Hd. injection Hd as Hty. rewrite Hty in Hd2. unfold fire_later in Hd2. rewrite B in Hd2. discriminate.
+      * rewrite Hg2p, map_app, pend_for_types.
+        destruct (query spe (g_log g1) (Attester, t)) as [|x xs]; [rewrite app_nil_r; exact HPN|].
+        destruct (flags_on fm); [|rewrite app_nil_r; exact HPN]. simpl.
+        apply NoDup_snoc; [exact HPN|]. intro Hin. apply in_map_iff in Hin. destruct Hin as [w [Hw Hin]].
+        destruct (HPS w Hin) as [A _]. unfold w_slot in Hw, A. simpl in Hw. rewrite Hw in A. lia.
   - (* LReorg *)
     simpl in H. unfold gstep. rewrite <- (sim_res _ _ _ _ HS).
     destruct (resolved s) as [r|] eqn:Er.
@@ -1057,28 +1184,51 @@ Proof.
     destruct (ep <? r).
     2:{ injection H as <-. split; [reflexivity|]. constructor; assumption. }
     injection H as <-. split; [reflexivity|]. destruct HS as [H1 H2 H3 [HL HB] H5].
-    constructor; [|exact HT]. constructor; simpl; try assumption; try reflexivity.
+    constructor; simpl; try assumption. constructor; simpl; try assumption; try reflexivity.
     + intros d Hd. rewrite (trim_fst spe) by assumption.
       rewrite (query_filter_epoch spe (g_log g) r d Hs H5). rewrite (H3 d Hd). reflexivity.
     + apply trim_inv; assumption.
     + intros it Hin. apply filter_In in Hin. apply H5. tauto.
+  - (* LHead *)
+    split; [reflexivity|]. simpl in H. simpl.
+    destruct (ff && flags_on fm && nonempty (fst (store s) (Attester, hslot)) && negb (memN hslot (eta s))).
+    + destruct fetch as [defs|]; [|discriminate].
+      destruct (same_set def_eqb defs (fst (store s) (Attester, hslot))); [|discriminate]. injection H as <-.
+      destruct HS as [H1 H2 H3 H4 H5]. constructor; simpl; try assumption. constructor; assumption.
+    + destruct fetch; [discriminate|]. injection H as <-. constructor; assumption.
+  - (* LFire *)
+    simpl in H. simpl. rewrite <- HP.
+    destruct (find_w fslot (pend s)) as [w|] eqn:Ef; [|discriminate].
+    destruct ((w_due w <=? now s) && same_set def_eqb fdefs (w_defs w)) eqn:Ec; [|discriminate]. injection H as <-.
+    destruct (find_w_some _ _ _ Ef) as [Hw Hws]. rewrite HP in Hw. destruct (HPS w Hw) as [Hlt Hnt]. rewrite Hws in Hlt, Hnt.
+    split.
+    + rewrite <- (sim_now _ _ _ _ HS), Ec. simpl. apply negb_true_iff. apply mem_duty_false. exact Hnt.
+    + destruct HS as [H1 H2 H3 H4 H5]. constructor; simpl.
+      * constructor; assumption.
+      * intros d Hd. apply in_app_or in Hd. destruct Hd as [Hd|[<-|[]]]; [apply HT; exact Hd | exact Hlt].
+      * rewrite HP. reflexivity.
+      * rewrite HP. intros w' Hw'. apply remove_w_in in Hw'. destruct Hw' as [Hin Hne]. destruct (HPS w' Hin) as [A B].
+        split; [exact A|]. intro Hin'. apply in_app_or in Hin'. destruct Hin' as [Hin'|[Hin'|[]]]; [tauto|].
+        injection Hin' as Hin'. congruence.
+      * rewrite HP. apply nodup_map_filter. exact HPN.
   - (* LQuiet *)
-    simpl in H. destruct (ticker_enabled D s); [discriminate|]. injection H as <-.
-    split; [reflexivity|]. constructor; assumption.
+    simpl in H. destruct (ticker_enabled D s || negb (due_none (now s) (pend s))) eqn:E; [discriminate|]. injection H as <-.
+    apply orb_false_iff in E. destruct E as [_ E]. apply negb_false_iff in E.
+    split; [simpl; rewrite <- (sim_now _ _ _ _ HS), <- HP; exact E|]. constructor; assumption.
 Qed.
 
 Theorem run_monitor_from s g ls s' :
-  Inv s g -> wf_trace spe ls = true -> run D spe s ls = Some s' -> monitor_from D spe g ls = true.
+  Inv s g -> wf_trace spe ls = true -> run D spe fm ff s ls = Some s' -> monitor_from D spe fm g ls = true.
 Proof.
   revert s g. induction ls as [|l r IH]; intros s g HI Hwf H; [reflexivity|].
   simpl in H, Hwf. apply andb_true_iff in Hwf. destruct Hwf as [Hwl Hwr].
-  destruct (step D spe s l) as [s1|] eqn:Es; [|discriminate].
+  destruct (step D spe fm ff s l) as [s1|] eqn:Es; [|discriminate].
   destruct (step_sound s g l s1 HI Hwl Es) as [Hc HI1]. simpl. rewrite Hc. simpl.
   apply (IH s1 _ HI1 Hwr H).
 Qed.
 
 Theorem run_monitor t0 ls s :
-  wf_trace spe ls = true -> run D spe (init D t0) ls = Some s -> monitor D spe t0 ls = true.
+  wf_trace spe ls = true -> run D spe fm ff (init D t0) ls = Some s -> monitor D spe fm t0 ls = true.
 Proof. intros Hwf H. apply (run_monitor_from (init D t0) (ginit t0) ls s (inv_init t0) Hwf H). Qed.
 
 End Main.
@@ -1087,6 +1237,17 @@ End Main.
 
 Definition all_triggers (ls : list label) : list trigger :=
   flat_map (fun l => match l with LTick _ _ outs => outs | _ => [] end) ls.
+
+(* Every call of the duty subscribers in a history, as (type, slot): the triggers of the ticks and, with a
+   flag on, the attester duties released from waiting. *)
+Definition trig_duties (ls : list label) : list duty :=
+  flat_map (fun l => match l with
+                     | LTick _ _ outs => map trig_duty outs
+                     | LFire slot _ => [(Attester, slot)]
+                     | _ => []
+                     end) ls.
+
+Definition is_fire (slot : N) (l : label) : bool := match l with LFire s _ => s =? slot | _ => false end.
 
 Definition tick_slots (ls : list label) : list N :=
   flat_map (fun l => match l with LTick t _ _ => [t] | _ => [] end) ls.
@@ -1106,6 +1267,8 @@ Definition item_from (spe : N) (it : item) (slot : N) (rn : resn) : Prop :=
 
 Section Readings.
 Variable D spe : N.
+Variable fm : fmode.
+Variable ff : bool.
 Hypothesis HD : 0 < D.
 Hypothesis Hs : 0 < spe.
 
@@ -1174,35 +1337,39 @@ Proof.
       * destruct (B2 it Hit) as [rn' [Hin Hf]]. exists rn'. split; [right; exact Hin | exact Hf].
 Qed.
 
-(* The ghost after a tick: the log grows by items of this tick's resolutions, triggers are appended. *)
+(* The ghost after a tick: the log grows by items of this tick's resolutions, triggers are appended,
+   and with a flag on the attester duty of the slot (if assigned) starts waiting. *)
 Lemma gstep_tick_shape g t sc outs :
-  exists more, g_log (gstep D spe g (LTick t sc outs)) = g_log g ++ more
+  exists more, g_log (gstep D spe fm g (LTick t sc outs)) = g_log g ++ more
     /\ (forall it, In it more -> exists rn slot, In rn sc /\ (slot = t \/ slot = t + 1) /\ item_from spe it slot rn)
-    /\ g_trig (gstep D spe g (LTick t sc outs)) = g_trig g ++ map trig_duty outs
-    /\ g_now (gstep D spe g (LTick t sc outs)) = g_now g.
+    /\ g_trig (gstep D spe fm g (LTick t sc outs)) = g_trig g ++ map trig_duty outs
+    /\ g_now (gstep D spe fm g (LTick t sc outs)) = g_now g
+    /\ g_pend (gstep D spe fm g (LTick t sc outs)) = g_pend g ++ pend_for D spe fm (g_log (fst (g_first spe g t sc))) t types.
 Proof.
   unfold gstep. destruct (g_first_shape g t sc) as [m1 [A1 [A2 [A3 [A4 A5]]]]].
-  destruct (g_first spe g t sc) as [g1 sc1]. simpl in A1, A3, A4, A5.
-  set (k := if last_in_epoch spe t then length (expected D spe (g_log g1) t) else 0%nat).
+  pose proof (g_first_pend spe g t sc) as A6.
+  destruct (g_first spe g t sc) as [g1 sc1]. cbn [fst snd] in A1, A3, A4, A5, A6.
+  set (k := if last_in_epoch spe t then length (with_defs spe (g_log g1) t types) else 0%nat).
   destruct (g_rest_shape k g1 (t + 1) sc1) as [m2 [B1 [B2 [B3 B4]]]].
-  exists (m1 ++ m2). simpl. rewrite B1, A1, app_assoc, B3, A3, B4, A4. repeat split; try reflexivity.
+  exists (m1 ++ m2). cbn [g_log g_trig g_now g_pend fst]. rewrite B1, A1, app_assoc, B3, A3, B4, A4, g_rest_pend, A6.
+  repeat split; try reflexivity.
   intros it Hit. apply in_app_or in Hit. destruct Hit as [Hit|Hit].
   - destruct (A2 it Hit) as [rn [Hin Hf]]. exists rn, t. auto.
   - destruct (B2 it Hit) as [rn [Hin Hf]]. exists rn, (t + 1). split; [apply A5; exact Hin | auto].
 Qed.
 
-Lemma ghost_after_app g a b : ghost_after D spe g (a ++ b) = ghost_after D spe (ghost_after D spe g a) b.
+Lemma ghost_after_app g a b : ghost_after D spe fm g (a ++ b) = ghost_after D spe fm (ghost_after D spe fm g a) b.
 Proof. revert g. induction a as [|l r IH]; intro g; simpl; [reflexivity | apply IH]. Qed.
 
 Lemma monitor_from_app g a b :
-  monitor_from D spe g (a ++ b) = monitor_from D spe g a && monitor_from D spe (ghost_after D spe g a) b.
+  monitor_from D spe fm g (a ++ b) = monitor_from D spe fm g a && monitor_from D spe fm (ghost_after D spe fm g a) b.
 Proof.
   revert g. induction a as [|l r IH]; intro g; simpl; [reflexivity|].
   rewrite IH, andb_assoc. reflexivity.
 Qed.
 
 Lemma monitor_at g pre l post :
-  monitor_from D spe g (pre ++ l :: post) = true -> check D spe (ghost_after D spe g pre) l = true.
+  monitor_from D spe fm g (pre ++ l :: post) = true -> check D spe fm (ghost_after D spe fm g pre) l = true.
 Proof.
   rewrite monitor_from_app. intro H. apply andb_true_iff in H. destruct H as [_ H]. simpl in H.
   apply andb_true_iff in H. tauto.
@@ -1211,15 +1378,15 @@ Qed.
 (* -- at most once -- *)
 
 Lemma at_most_once_from g ls :
-  NoDup (g_trig g) -> monitor_from D spe g ls = true ->
-  NoDup (g_trig g ++ map trig_duty (all_triggers ls))
-  /\ g_trig (ghost_after D spe g ls) = g_trig g ++ map trig_duty (all_triggers ls).
+  NoDup (g_trig g) -> monitor_from D spe fm g ls = true ->
+  NoDup (g_trig g ++ trig_duties ls)
+  /\ g_trig (ghost_after D spe fm g ls) = g_trig g ++ trig_duties ls.
 Proof.
   revert g. induction ls as [|l r IH]; intros g Hnd H.
   - simpl. rewrite app_nil_r. auto.
   - simpl in H. apply andb_true_iff in H. destruct H as [Hc Hm].
-    destruct l as [dt|t sc outs|ep|].
-    + apply (IH (gstep D spe g (LAdv dt)) Hnd Hm).
+    destruct l as [dt|t sc outs|ep|hs hf|fs fd|].
+    + apply (IH (gstep D spe fm g (LAdv dt)) Hnd Hm).
     + destruct (gstep_tick_shape g t sc outs) as [more [_ [_ [Htr _]]]].
       assert (Hnd' : NoDup (g_trig g ++ map trig_duty outs)).
       { unfold check in Hc. destruct (g_first spe g t sc) as [g1 sc1].
@@ -1234,15 +1401,22 @@ Proof.
         apply in_map_iff in Hin. destruct Hin as [tr [Htr Hin]]. specialize (H2 tr Hin).
         apply negb_true_iff in H2. apply mem_duty_false in H2. apply H2. rewrite Htr. left. reflexivity. }
       rewrite <- Htr in Hnd'. destruct (IH _ Hnd' Hm) as [A B].
-      simpl. rewrite map_app, app_assoc, <- Htr. split; assumption.
-    + assert (Ht : g_trig (gstep D spe g (LReorg ep)) = g_trig g).
+      cbn [trig_duties flat_map ghost_after]. fold (trig_duties r). rewrite app_assoc, <- Htr. split; assumption.
+    + assert (Ht : g_trig (gstep D spe fm g (LReorg ep)) = g_trig g).
       { simpl. destruct (g_resolved g); [destruct (ep <? n)|]; reflexivity. }
       rewrite <- Ht in Hnd. destruct (IH _ Hnd Hm) as [A B]. rewrite Ht in A, B. simpl. split; assumption.
-    + apply (IH (gstep D spe g LQuiet) Hnd Hm).
+    + apply (IH (gstep D spe fm g (LHead hs hf)) Hnd Hm).
+    + assert (Hnd' : NoDup (g_trig g ++ [(Attester, fs)])).
+      { simpl in Hc. destruct (find_w fs (g_pend g)); [|discriminate].
+        apply andb_true_iff in Hc. destruct Hc as [_ Hc]. apply negb_true_iff in Hc. apply mem_duty_false in Hc.
+        apply NoDup_snoc; assumption. }
+      destruct (IH (gstep D spe fm g (LFire fs fd)) Hnd' Hm) as [A B]. simpl in A, B.
+      cbn [trig_duties flat_map ghost_after]. fold (trig_duties r). rewrite <- app_assoc in A, B. simpl in A, B. split; assumption.
+    + apply (IH (gstep D spe fm g LQuiet) Hnd Hm).
 Qed.
 
 Theorem trigger_at_most_once t0 ls :
-  monitor D spe t0 ls = true -> NoDup (map trig_duty (all_triggers ls)).
+  monitor D spe fm t0 ls = true -> NoDup (trig_duties ls).
 Proof.
   intro H. destruct (at_most_once_from (ginit t0) ls (NoDup_nil _) H) as [A _]. exact A.
 Qed.
@@ -1250,9 +1424,9 @@ Qed.
 (* -- what a tick triggers -- *)
 
 Definition log_at (t0 : N) (pre : list label) (t : N) (sc : list resn) : list item :=
-  g_log (fst (g_first spe (ghost_after D spe (ginit t0) pre) t sc)).
+  g_log (fst (g_first spe (ghost_after D spe fm (ginit t0) pre) t sc)).
 
-Definition now_after (t0 : N) (pre : list label) : N := g_now (ghost_after D spe (ginit t0) pre).
+Definition now_after (t0 : N) (pre : list label) : N := g_now (ghost_after D spe fm (ginit t0) pre).
 
 Lemma trig_eqb_fields a b :
   trig_eqb a b = true ->
@@ -1265,35 +1439,46 @@ Proof.
 Qed.
 
 Theorem tick_triggers t0 ls pre t sc outs post :
-  monitor D spe t0 ls = true -> ls = pre ++ LTick t sc outs :: post ->
+  monitor D spe fm t0 ls = true -> ls = pre ++ LTick t sc outs :: post ->
   t * D <= now_after t0 pre /\
   (forall tr, In tr outs ->
      In (t_ty tr) types /\ t_slot tr = t /\ t_deadline tr = deadline D (t_ty tr) t /\
      t_defs tr <> [] /\ NoDup (map fst (t_defs tr)) /\
-     (forall x, In x (t_defs tr) <-> In x (query spe (log_at t0 pre t sc) (t_ty tr, t)))) /\
-  (forall ty, In ty types -> query spe (log_at t0 pre t sc) (ty, t) <> [] ->
-     exists tr, In tr outs /\ t_ty tr = ty /\ t_slot tr = t).
+     (forall x, In x (t_defs tr) <-> In x (query spe (log_at t0 pre t sc) (t_ty tr, t))) /\
+     fire_later fm (t_ty tr) = false) /\
+  (forall ty, In ty types -> query spe (log_at t0 pre t sc) (ty, t) <> [] -> fire_later fm ty = false ->
+     exists tr, In tr outs /\ t_ty tr = ty /\ t_slot tr = t) /\
+  (flags_on fm = true -> query spe (log_at t0 pre t sc) (Attester, t) <> [] ->
+     In (t, query spe (log_at t0 pre t sc) (Attester, t), att_due D fm t)
+        (g_pend (ghost_after D spe fm (ginit t0) (pre ++ [LTick t sc outs])))).
 Proof.
   intros Hm ->. apply monitor_at in Hm. unfold check in Hm. unfold log_at, now_after.
-  destruct (g_first spe (ghost_after D spe (ginit t0) pre) t sc) as [g1 sc1]. simpl.
+  set (g := ghost_after D spe fm (ginit t0) pre) in *.
+  assert (Hpend : g_pend (ghost_after D spe fm (ginit t0) (pre ++ [LTick t sc outs])) =
+                  g_pend g ++ pend_for D spe fm (g_log (fst (g_first spe g t sc))) t types).
+  { rewrite ghost_after_app. cbn [ghost_after]. fold g.
+    destruct (gstep_tick_shape g t sc outs) as [m [_ [_ [_ [_ A]]]]]. exact A. }
+  destruct (g_first spe g t sc) as [g1 sc1]. cbn [fst] in *.
   apply andb_true_iff in Hm. destruct Hm as [Hm Hss]. apply andb_true_iff in Hm. destruct Hm as [Hm _].
   apply andb_true_iff in Hm. destruct Hm as [Hst _]. apply N.leb_le in Hst.
-  split; [exact Hst|]. rewrite expected_exp_for in Hss. split.
+  split; [exact Hst|]. rewrite expected_exp_for in Hss. split; [|split].
   - intros tr Htr. destruct (same_set_in_l trig_eqb _ _ tr Hss Htr) as [y [Hy Hey]].
     apply trig_eqb_fields in Hey. destruct Hey as [E1 [E2 [E3 [E4 [E5 E6]]]]].
-    apply exp_for_in in Hy. destruct Hy as [Y1 [Y2 [Y3 [Y4 Y5]]]].
-    rewrite E1, E2, E3. repeat split; try assumption.
+    apply exp_for_in in Hy. destruct Hy as [Y1 [Y2 [Y3 [Y4 [Y5 Y6]]]]].
+    rewrite E1, E2, E3. split; [exact Y1|]. split; [exact Y2|]. split; [exact Y5|]. split; [|split; [|split]].
     + intro Hnil. rewrite Hnil in E4. destruct (t_defs y); [congruence | discriminate].
     + (* distinct public keys: same length as a duplicate-free list that includes it *)
       apply (@NoDup_incl_NoDup _ (map fst (t_defs y))).
       * rewrite Y3. unfold query. apply first_wins_nodup. constructor.
       * rewrite !map_length. rewrite E4. apply le_n.
       * intros p Hp. apply in_map_iff in Hp. destruct Hp as [x [<- Hx]]. apply in_map. apply E6. exact Hx.
-    + intro Hx. rewrite <- Y3. apply E5. exact Hx.
-    + intro Hx. rewrite <- Y3 in Hx. apply E6. exact Hx.
-  - intros ty Hty Hne. pose proof (exp_for_complete D spe (g_log g1) t types ty Hty Hne) as Hin.
+    + intro x. rewrite <- Y3. split; [apply E5 | apply E6].
+    + exact Y6.
+  - intros ty Hty Hne Hfl. pose proof (exp_for_complete D spe fm (g_log g1) t types ty Hty Hne Hfl) as Hin.
     destruct (same_set_in_r trig_eqb _ _ _ Hss Hin) as [x [Hx Hex]].
-    apply trig_eqb_fields in Hex. simpl in Hex. exists x. destruct Hex as [E1 [E2 _]]. auto.
+    apply trig_eqb_fields in Hex. cbn [t_ty t_slot] in Hex. exists x. destruct Hex as [E1 [E2 _]]. auto.
+  - intros Hfl Hne. rewrite Hpend. apply in_or_app. right. rewrite (pend_for_types D spe fm).
+    destruct (query spe (g_log g1) (Attester, t)); [congruence|]. rewrite Hfl. left. reflexivity.
 Qed.
 
 (* -- what the query means -- *)
@@ -1402,13 +1587,13 @@ Qed.
 (* -- where log items come from -- *)
 
 Lemma log_origin g ls it :
-  In it (g_log (ghost_after D spe g ls)) ->
+  In it (g_log (ghost_after D spe fm g ls)) ->
   In it (g_log g) \/
   exists t sc outs rn slot, In (LTick t sc outs) ls /\ In rn sc /\ (slot = t \/ slot = t + 1) /\ item_from spe it slot rn.
 Proof.
   revert g. induction ls as [|l r IH]; intros g H; [left; exact H|].
   simpl in H. apply IH in H. destruct H as [H|H].
-  - destruct l as [dt|t sc outs|ep|].
+  - destruct l as [dt|t sc outs|ep|hs hf|fs fd|].
     + left. exact H.
     + destruct (gstep_tick_shape g t sc outs) as [more [A1 [A2 _]]]. rewrite A1 in H.
       apply in_app_or in H. destruct H as [H|H]; [left; exact H|].
@@ -1416,6 +1601,8 @@ Proof.
       split; [left; reflexivity | auto].
     + left. simpl in H. destruct (g_resolved g); [destruct (ep <? n)|]; try exact H.
       simpl in H. apply filter_In in H. tauto.
+    + left. exact H.
+    + left. exact H.
     + left. exact H.
   - right. destruct H as [t [sc [outs [rn [slot [A [B [C E]]]]]]]]. exists t, sc, outs, rn, slot.
     split; [right; exact A | auto].
@@ -1426,7 +1613,7 @@ Lemma log_at_origin t0 pre t sc outs it :
   exists t' sc' outs' rn slot, In (LTick t' sc' outs') (pre ++ [LTick t sc outs]) /\ In rn sc'
     /\ (slot = t' \/ slot = t' + 1) /\ item_from spe it slot rn.
 Proof.
-  unfold log_at. intro H. destruct (g_first_shape (ghost_after D spe (ginit t0) pre) t sc) as [more [A1 [A2 _]]].
+  unfold log_at. intro H. destruct (g_first_shape (ghost_after D spe fm (ginit t0) pre) t sc) as [more [A1 [A2 _]]].
   rewrite A1 in H. apply in_app_or in H. destruct H as [H|H].
   - apply log_origin in H. destruct H as [[]|H].
     destruct H as [t' [sc' [outs' [rn [slot [A [B [C E]]]]]]]]. exists t', sc', outs', rn, slot.
@@ -1439,7 +1626,7 @@ Qed.
    of the validators answer of the same resolution, active for the resolved epoch, with that
    validator's public key, for this slot. *)
 Theorem triggered_only_assigned t0 ls pre t sc outs post tr pk e :
-  monitor D spe t0 ls = true -> ls = pre ++ LTick t sc outs :: post ->
+  monitor D spe fm t0 ls = true -> ls = pre ++ LTick t sc outs :: post ->
   In tr outs -> In (pk, e) (t_defs tr) ->
   exists t' sc' outs' rn slot vals v,
     In (LTick t' sc' outs') (pre ++ [LTick t sc outs]) /\ In rn sc' /\ (slot = t' \/ slot = t' + 1) /\
@@ -1473,12 +1660,12 @@ Qed.
 
 Lemma log_mono g mid :
   forallb (fun l => negb (is_reorg l)) mid = true ->
-  incl (g_log g) (g_log (ghost_after D spe g mid)).
+  incl (g_log g) (g_log (ghost_after D spe fm g mid)).
 Proof.
   revert g. induction mid as [|l r IH]; intros g H; [apply incl_refl|].
   simpl in H. apply andb_true_iff in H. destruct H as [Hl Hr]. simpl.
-  apply incl_tran with (m := g_log (gstep D spe g l)); [|apply IH; exact Hr].
-  destruct l as [dt|t sc outs|ep|]; try apply incl_refl; [|discriminate].
+  apply incl_tran with (m := g_log (gstep D spe fm g l)); [|apply IH; exact Hr].
+  destruct l as [dt|t sc outs|ep|hs hf|fs fd|]; try apply incl_refl; [|discriminate].
   destruct (gstep_tick_shape g t sc outs) as [more [A _]]. rewrite A. apply incl_appl. apply incl_refl.
 Qed.
 
@@ -1504,40 +1691,128 @@ Lemma all_triggers_in ls t sc outs tr : In (LTick t sc outs) ls -> In tr outs ->
 Proof. intros H1 H2. unfold all_triggers. apply in_flat_map. exists (LTick t sc outs). auto. Qed.
 
 (* If some answer recorded before (pre1) assigns validator pk to duty (ty, t), no reorg event is
-   handled in between, and the tick of slot t is delivered, then the duty is triggered at that tick
-   with a definition for pk, and no other trigger of that duty exists anywhere in the history. *)
+   handled in between, and the tick of slot t is delivered, then at that tick the duty is triggered with
+   a definition for pk -- or, for the attester duty with a flag on, starts waiting with such a
+   definition, to be released at att_due (see waiting_released). With trigger_at_most_once: exactly once. *)
 Theorem assigned_is_triggered t0 ls pre1 mid t sc outs post it ty pk e :
-  monitor D spe t0 ls = true -> ls = pre1 ++ mid ++ LTick t sc outs :: post ->
+  monitor D spe fm t0 ls = true -> ls = pre1 ++ mid ++ LTick t sc outs :: post ->
   forallb (fun l => negb (is_reorg l)) mid = true ->
-  In it (g_log (ghost_after D spe (ginit t0) pre1)) -> In ((ty, t), (pk, e)) (grants spe it) ->
-  exists tr, In tr outs /\ t_ty tr = ty /\ t_slot tr = t /\ has_pk pk (t_defs tr) = true /\
-    (forall tr', In tr' (all_triggers ls) -> trig_duty tr' = (ty, t) -> tr' = tr).
+  In it (g_log (ghost_after D spe fm (ginit t0) pre1)) -> In ((ty, t), (pk, e)) (grants spe it) ->
+  if fire_later fm ty
+  then exists defs, has_pk pk defs = true /\
+         In (t, defs, att_due D fm t) (g_pend (ghost_after D spe fm (ginit t0) ((pre1 ++ mid) ++ [LTick t sc outs])))
+  else exists tr, In tr outs /\ t_ty tr = ty /\ t_slot tr = t /\ has_pk pk (t_defs tr) = true.
 Proof.
   intros Hm Hls Hmid Hit Hg.
   assert (Hls' : ls = (pre1 ++ mid) ++ LTick t sc outs :: post) by (rewrite Hls, app_assoc; reflexivity).
-  destruct (tick_triggers t0 ls (pre1 ++ mid) t sc outs post Hm Hls') as [_ [Hall Hex]].
+  destruct (tick_triggers t0 ls (pre1 ++ mid) t sc outs post Hm Hls') as [_ [Hall [Hex Hwait]]].
   assert (Hit' : In it (log_at t0 (pre1 ++ mid) t sc)).
-  { unfold log_at. destruct (g_first_shape (ghost_after D spe (ginit t0) (pre1 ++ mid)) t sc) as [more [A _]].
+  { unfold log_at. destruct (g_first_shape (ghost_after D spe fm (ginit t0) (pre1 ++ mid)) t sc) as [more [A _]].
     rewrite A. apply in_or_app. left. rewrite ghost_after_app. apply (log_mono _ mid Hmid). exact Hit. }
   pose proof (query_complete _ it (ty, t) pk e Hit' Hg) as Hhas.
   assert (Hne : query spe (log_at t0 (pre1 ++ mid) t sc) (ty, t) <> []).
   { intro E. rewrite E in Hhas. discriminate. }
-  destruct (Hex ty (grants_types it _ _ Hg) Hne) as [tr [Htr [Hty Hsl]]].
-  exists tr. repeat split; try assumption.
-  - destruct (Hall tr Htr) as [_ [_ [_ [_ [_ Hq]]]]]. apply has_pk_In in Hhas. destruct Hhas as [e' He'].
+  destruct (fire_later fm ty) eqn:Efl.
+  - unfold fire_later in Efl. apply andb_true_iff in Efl. destruct Efl as [Ef1 Ef2]. apply dtype_eqb_eq in Ef2. subst ty.
+    exists (query spe (log_at t0 (pre1 ++ mid) t sc) (Attester, t)). split; [exact Hhas|]. apply Hwait; assumption.
+  - destruct (Hex ty (grants_types it _ _ Hg) Hne Efl) as [tr [Htr [Hty Hsl]]].
+    exists tr. repeat split; try assumption.
+    destruct (Hall tr Htr) as [_ [_ [_ [_ [_ [Hq _]]]]]]. apply has_pk_In in Hhas. destruct Hhas as [e' He'].
     apply has_pk_In. exists e'. apply Hq. rewrite Hty. exact He'.
-  - intros tr' Hin' Hd'. apply (nodup_map_same trig_duty (all_triggers ls)).
-    + apply (trigger_at_most_once t0 ls Hm).
-    + exact Hin'.
-    + apply (all_triggers_in ls t sc outs); [rewrite Hls'; apply in_or_app; right; left; reflexivity | exact Htr].
-    + rewrite Hd'. unfold trig_duty. rewrite Hty, Hsl. reflexivity.
 Qed.
 
+(* -- attester duties waiting on the clock (a flag on) -- *)
+
+Lemma gstep_pend_other g l :
+  (forall t sc outs, l <> LTick t sc outs) -> (forall s d, l <> LFire s d) -> g_pend (gstep D spe fm g l) = g_pend g.
+Proof.
+  intros H1 H2. destruct l as [dt|t sc outs|ep|hs hf|fs fd|]; try reflexivity.
+  - exfalso. apply (H1 t sc outs). reflexivity.
+  - simpl. destruct (g_resolved g); [destruct (ep <? n)|]; reflexivity.
+  - exfalso. apply (H2 fs fd). reflexivity.
+Qed.
+
+(* Every waiting duty is released at slot start + the attester offset of the flag mode. *)
+Lemma waiting_due_from g ls :
+  (forall w, In w (g_pend g) -> w_due w = att_due D fm (w_slot w)) ->
+  forall w, In w (g_pend (ghost_after D spe fm g ls)) -> w_due w = att_due D fm (w_slot w).
+Proof.
+  revert g. induction ls as [|l r IH]; intros g Hg; [exact Hg|]. simpl. apply IH.
+  intros w Hw. destruct l as [dt|t sc outs|ep|hs hf|fs fd|]; try (apply Hg; exact Hw).
+  - destruct (gstep_tick_shape g t sc outs) as [m [_ [_ [_ [_ A]]]]]. rewrite A in Hw.
+    apply in_app_or in Hw. destruct Hw as [Hw|Hw]; [apply Hg; exact Hw|].
+    apply pend_for_in in Hw. destruct Hw as [_ [_ [-> _]]]. reflexivity.
+  - apply Hg. simpl in Hw. destruct (g_resolved g); [destruct (ep <? n)|]; exact Hw.
+  - simpl in Hw. apply remove_w_in in Hw. apply Hg. tauto.
+Qed.
+
+(* A release (the subscribers of an attester duty called by its waiting goroutine) is of a duty that a
+   tick put in waiting, with the definitions captured at that tick, not before slot start + offset,
+   and the duty was never triggered before. *)
+Theorem waiting_fires t0 ls pre slot defs post :
+  monitor D spe fm t0 ls = true -> ls = pre ++ LFire slot defs :: post ->
+  exists w, In w (g_pend (ghost_after D spe fm (ginit t0) pre)) /\ w_slot w = slot /\
+    slot * D + att_offset D fm <= now_after t0 pre /\
+    (forall x, In x defs <-> In x (w_defs w)) /\ ~ In (Attester, slot) (trig_duties pre).
+Proof.
+  intros Hm Hls. pose proof Hm as Hm0. rewrite Hls in Hm. apply monitor_at in Hm. simpl in Hm. unfold now_after.
+  set (g := ghost_after D spe fm (ginit t0) pre) in *.
+  destruct (find_w slot (g_pend g)) as [w|] eqn:Ef; [|discriminate].
+  apply andb_true_iff in Hm. destruct Hm as [Hm H3]. apply andb_true_iff in Hm. destruct Hm as [H1 H2].
+  destruct (find_w_some _ _ _ Ef) as [Hw Hws]. exists w. split; [exact Hw|]. split; [exact Hws|].
+  apply N.leb_le in H1. apply negb_true_iff in H3. apply mem_duty_false in H3.
+  apply (same_set_spec def_eqb _ _ def_eqb_eq) in H2. destruct H2 as [_ [I1 I2]].
+  split; [|split].
+  - assert (Hd : w_due w = att_due D fm (w_slot w)) by (apply (waiting_due_from (ginit t0) pre); [intros w0 [] | exact Hw]).
+    rewrite Hd, Hws in H1. exact H1.
+  - intro x. split; [apply I1 | apply I2].
+  - assert (Hpre : monitor_from D spe fm (ginit t0) pre = true).
+    { unfold monitor in Hm0. rewrite Hls, monitor_from_app in Hm0. apply andb_true_iff in Hm0. tauto. }
+    destruct (at_most_once_from (ginit t0) pre (NoDup_nil _) Hpre) as [_ B]. simpl in B. fold g in B.
+    rewrite B in H3. exact H3.
+Qed.
+
+(* At a quiescent point no waiting duty is due. *)
+Theorem quiet_no_due_waiting t0 ls pre post :
+  monitor D spe fm t0 ls = true -> ls = pre ++ LQuiet :: post ->
+  forall w, In w (g_pend (ghost_after D spe fm (ginit t0) pre)) -> now_after t0 pre < w_due w.
+Proof.
+  intros Hm -> w Hw. apply monitor_at in Hm. simpl in Hm. unfold due_none in Hm. rewrite forallb_forall in Hm.
+  apply N.ltb_lt. apply Hm. exact Hw.
+Qed.
+
+(* A waiting duty stays waiting until it is released. *)
+Lemma waiting_stays g mid w :
+  In w (g_pend g) -> existsb (is_fire (w_slot w)) mid = false -> In w (g_pend (ghost_after D spe fm g mid)).
+Proof.
+  revert g. induction mid as [|l r IH]; intros g Hw Hn; [exact Hw|].
+  simpl in Hn. apply orb_false_iff in Hn. destruct Hn as [Hl Hr]. simpl. apply IH; [|exact Hr].
+  destruct l as [dt|t sc outs|ep|hs hf|fs fd|]; try exact Hw.
+  - destruct (gstep_tick_shape g t sc outs) as [m [_ [_ [_ [_ A]]]]]. rewrite A. apply in_or_app. left. exact Hw.
+  - simpl. destruct (g_resolved g); [destruct (ep <? n)|]; exact Hw.
+  - simpl. apply remove_w_in. split; [exact Hw|]. simpl in Hl. apply N.eqb_neq in Hl. congruence.
+Qed.
+
+(* Hence: a duty waiting after [pre] whose release instant has passed at a later quiescent point has
+   been released in between. *)
+Theorem waiting_released t0 ls pre mid post w :
+  monitor D spe fm t0 ls = true -> ls = pre ++ mid ++ LQuiet :: post ->
+  In w (g_pend (ghost_after D spe fm (ginit t0) pre)) -> w_due w <= now_after t0 (pre ++ mid) ->
+  exists defs, In (LFire (w_slot w) defs) mid.
+Proof.
+  intros Hm Hls Hw Hdue.
+  destruct (existsb (is_fire (w_slot w)) mid) eqn:E.
+  - apply existsb_exists in E. destruct E as [l [Hl Hf]]. destruct l as [dt|t sc outs|ep|hs hf|fs fd|]; try discriminate.
+    simpl in Hf. apply N.eqb_eq in Hf. subst fs. exists fd. exact Hl.
+  - exfalso. pose proof (waiting_stays _ mid w Hw E) as Hst. rewrite <- ghost_after_app in Hst.
+    assert (Hls' : ls = (pre ++ mid) ++ LQuiet :: post) by (rewrite Hls, app_assoc; reflexivity).
+    pose proof (quiet_no_due_waiting t0 ls (pre ++ mid) post Hm Hls' w Hst). lia.
+Qed.
 (* The first resolution of a tick (made because the epoch is not the resolved one) is in the log the
    tick's triggers are computed from: a duty resolved at its own slot is triggered at that slot. *)
 Lemma first_resolution_logged t0 pre t rn sc' it :
-  optN_is (g_resolved (ghost_after D spe (ginit t0) pre)) (epoch_of spe t) = false ->
-  In it (g_log (gres spe (ghost_after D spe (ginit t0) pre) t rn)) ->
+  optN_is (g_resolved (ghost_after D spe fm (ginit t0) pre)) (epoch_of spe t) = false ->
+  In it (g_log (gres spe (ghost_after D spe fm (ginit t0) pre) t rn)) ->
   In it (log_at t0 pre t (rn :: sc')).
 Proof. intros H Hin. unfold log_at, g_first. rewrite H. simpl. exact Hin. Qed.
 
@@ -1615,83 +1890,77 @@ Fixpoint last_tick (ls : list label) (acc : option N) : option N :=
   | _ :: r => last_tick r acc
   end.
 
-Lemma resolve_frame s slot r s' : resolve spe s slot r = Some s' -> expect s' = expect s /\ now s' = now s.
-Proof.
-  unfold resolve. intro H.
-  repeat match type of H with
-  | context [match ?x with _ => _ end] => destruct x
-  | context [if ?x then _ else _] => destruct x
-  end; try discriminate; injection H as <-; split; reflexivity.
-Qed.
-
 Lemma tick_loop_frame tys t s sc s' sc' outs :
-  tick_loop D spe tys t s sc = Some (s', sc', outs) -> expect s' = expect s /\ now s' = now s.
+  tick_loop D spe fm tys t s sc = Some (s', sc', outs) -> expect s' = expect s /\ now s' = now s.
 Proof.
   revert s sc s' sc' outs. induction tys as [|ty r IH]; intros s sc s' sc' outs H; simpl in H.
   - injection H as <- _ _. split; reflexivity.
-  - destruct (fst (store s) (ty, t)); [apply (IH _ _ _ _ _ H)|].
+  - destruct (fst (store s) (ty, t)) as [|x xs]; [apply (IH _ _ _ _ _ H)|].
+    set (s0 := if fire_later fm ty then with_pend s (pend s ++ [(t, x :: xs, att_due D fm t)]) else s) in *.
+    assert (H0 : expect s0 = expect s /\ now s0 = now s) by (unfold s0; destruct (fire_later fm ty); split; reflexivity).
+    destruct H0 as [H0a H0b].
     destruct (last_in_epoch spe t).
     + destruct sc as [|rn sc0]; [discriminate|].
-      destruct (resolve spe s (t + 1) rn) as [s1|] eqn:Er; [|discriminate].
-      destruct (tick_loop D spe r t s1 sc0) as [[[s2 sc2] o2]|] eqn:Et; [|discriminate].
-      injection H as <- _ _. apply resolve_frame in Er. apply IH in Et. destruct Er, Et. split; congruence.
-    + destruct (tick_loop D spe r t s sc) as [[[s2 sc2] o2]|] eqn:Et; [|discriminate].
-      injection H as <- _ _. apply (IH _ _ _ _ _ Et).
+      destruct (resolve spe fm s0 (t + 1) rn) as [s1|] eqn:Er; [|discriminate].
+      destruct (tick_loop D spe fm r t s1 sc0) as [[[s2 sc2] o2]|] eqn:Et; [|discriminate].
+      injection H as <- _ _. apply resolve_frame in Er. apply IH in Et. destruct Er as [E1 [E2 _]], Et. split; congruence.
+    + destruct (tick_loop D spe fm r t s0 sc) as [[[s2 sc2] o2]|] eqn:Et; [|discriminate].
+      injection H as <- _ _. apply IH in Et. destruct Et. split; congruence.
 Qed.
 
 Lemma sched_slot_frame s t sc s' sc' outs :
-  sched_slot D spe s t sc = Some (s', sc', outs) -> expect s' = expect s /\ now s' = now s.
+  sched_slot D spe fm s t sc = Some (s', sc', outs) -> expect s' = expect s /\ now s' = now s.
 Proof.
   unfold sched_slot. intro H. destruct (optN_is (resolved s) (epoch_of spe t)).
   - apply (tick_loop_frame _ _ _ _ _ _ _ H).
   - destruct sc as [|rn sc0]; [discriminate|].
-    destruct (resolve spe s t rn) as [s1|] eqn:Er; [|discriminate].
-    apply resolve_frame in Er. apply tick_loop_frame in H. destruct Er, H. split; congruence.
+    destruct (resolve spe fm s t rn) as [s1|] eqn:Er; [|discriminate].
+    apply resolve_frame in Er. apply tick_loop_frame in H. destruct Er as [E1 [E2 _]], H. split; congruence.
 Qed.
 
 Lemma tick_loop_not_last tys t s sc s' sc' outs :
-  last_in_epoch spe t = false -> tick_loop D spe tys t s sc = Some (s', sc', outs) -> sc' = sc.
+  last_in_epoch spe t = false -> tick_loop D spe fm tys t s sc = Some (s', sc', outs) -> sc' = sc.
 Proof.
   intro Hl. revert s sc s' sc' outs. induction tys as [|ty r IH]; intros s sc s' sc' outs H; simpl in H.
   - injection H as _ <- _. reflexivity.
-  - rewrite Hl in H. destruct (fst (store s) (ty, t)); [apply (IH _ _ _ _ _ H)|].
-    destruct (tick_loop D spe r t s sc) as [[[s2 sc2] o2]|] eqn:Et; [|discriminate].
+  - rewrite Hl in H. destruct (fst (store s) (ty, t)) as [|x xs]; [apply (IH _ _ _ _ _ H)|].
+    destruct (tick_loop D spe fm r t _ sc) as [[[s2 sc2] o2]|] eqn:Et; [|discriminate].
     injection H as _ <- _. apply (IH _ _ _ _ _ Et).
 Qed.
 
-Lemma run_app s a b : run D spe s (a ++ b) = match run D spe s a with Some s1 => run D spe s1 b | None => None end.
+Lemma run_app s a b : run D spe fm ff s (a ++ b) = match run D spe fm ff s a with Some s1 => run D spe fm ff s1 b | None => None end.
 Proof.
   revert s. induction a as [|l r IH]; intro s; simpl; [reflexivity|].
-  destruct (step D spe s l); [apply IH | reflexivity].
+  destruct (step D spe fm ff s l); [apply IH | reflexivity].
 Qed.
 
 Lemma wf_trace_app a b : wf_trace spe (a ++ b) = wf_trace spe a && wf_trace spe b.
 Proof. unfold wf_trace. apply forallb_app. Qed.
 
 Lemma run_inv_from s g ls s' :
-  Inv spe s g -> wf_trace spe ls = true -> run D spe s ls = Some s' -> Inv spe s' (ghost_after D spe g ls).
+  Inv spe s g -> wf_trace spe ls = true -> run D spe fm ff s ls = Some s' -> Inv spe s' (ghost_after D spe fm g ls).
 Proof.
   revert s g. induction ls as [|l r IH]; intros s g HI Hwf H; simpl in *.
   - injection H as <-. exact HI.
   - apply andb_true_iff in Hwf. destruct Hwf as [Hwl Hwr].
-    destruct (step D spe s l) as [s1|] eqn:Es; [|discriminate].
-    destruct (step_sound D spe HD Hs s g l s1 HI Hwl Es) as [_ HI1]. apply (IH _ _ HI1 Hwr H).
+    destruct (step D spe fm ff s l) as [s1|] eqn:Es; [|discriminate].
+    destruct (step_sound D spe fm ff HD Hs s g l s1 HI Hwl Es) as [_ HI1]. apply (IH _ _ HI1 Hwr H).
 Qed.
 
 (* While the epoch of the tick is not the resolved one, every tick asks the beacon node again; once it
    is, and the slot is not the last of its epoch, the beacon node is not asked at all. *)
 Theorem retry_until_resolved t0 ls s pre t sc outs post :
-  wf_trace spe ls = true -> run D spe (init D t0) ls = Some s -> ls = pre ++ LTick t sc outs :: post ->
-  (optN_is (g_resolved (ghost_after D spe (ginit t0) pre)) (epoch_of spe t) = false -> sc <> []) /\
-  (optN_is (g_resolved (ghost_after D spe (ginit t0) pre)) (epoch_of spe t) = true ->
+  wf_trace spe ls = true -> run D spe fm ff (init D t0) ls = Some s -> ls = pre ++ LTick t sc outs :: post ->
+  (optN_is (g_resolved (ghost_after D spe fm (ginit t0) pre)) (epoch_of spe t) = false -> sc <> []) /\
+  (optN_is (g_resolved (ghost_after D spe fm (ginit t0) pre)) (epoch_of spe t) = true ->
    last_in_epoch spe t = false -> sc = []).
 Proof.
   intros Hwf H ->. rewrite wf_trace_app in Hwf. apply andb_true_iff in Hwf. destruct Hwf as [Hw1 _].
-  rewrite run_app in H. destruct (run D spe (init D t0) pre) as [s1|] eqn:E1; [|discriminate].
+  rewrite run_app in H. destruct (run D spe fm ff (init D t0) pre) as [s1|] eqn:E1; [|discriminate].
   pose proof (run_inv_from _ _ _ _ (inv_init D spe t0) Hw1 E1) as [HS _].
-  cbn [run] in H. destruct (step D spe s1 (LTick t sc outs)) as [s2|] eqn:Est; [|discriminate]. clear H.
+  cbn [run] in H. destruct (step D spe fm ff s1 (LTick t sc outs)) as [s2|] eqn:Est; [|discriminate]. clear H.
   unfold step in Est. destruct (ticker_enabled D s1 && (t =? ticker_slot D s1)); [|discriminate].
-  destruct (sched_slot D spe _ t sc) as [[[s3 sc3] exp]|] eqn:Esch; [|discriminate].
+  destruct (sched_slot D spe fm _ t sc) as [[[s3 sc3] exp]|] eqn:Esch; [|discriminate].
   destruct sc3; [|discriminate]. clear Est.
   unfold sched_slot in Esch. cbn [resolved] in Esch. rewrite (sim_res _ _ _ _ HS) in Esch.
   split.
@@ -1700,11 +1969,11 @@ Proof.
     apply (tick_loop_not_last _ _ _ _ _ _ _ Hl) in Esch. symmetry. exact Esch.
 Qed.
 
-Lemma ghost_now g ls : g_now (ghost_after D spe g ls) = clock_after (g_now g) ls.
+Lemma ghost_now g ls : g_now (ghost_after D spe fm g ls) = clock_after (g_now g) ls.
 Proof.
   revert g. induction ls as [|l r IH]; intro g; [reflexivity|]. simpl. rewrite IH. unfold clock_after. simpl.
-  f_equal. destruct l as [dt|t sc outs|ep|]; try reflexivity.
-  - destruct (gstep_tick_shape g t sc outs) as [m [_ [_ [_ A]]]]. exact A.
+  f_equal. destruct l as [dt|t sc outs|ep|hs hf|fs fd|]; try reflexivity.
+  - destruct (gstep_tick_shape g t sc outs) as [m [_ [_ [_ [A _]]]]]. exact A.
   - simpl. destruct (g_resolved g); [destruct (ep <? n)|]; reflexivity.
 Qed.
 
@@ -1747,15 +2016,15 @@ Proof.
   - apply Forall_app. split; [exact Ha | constructor; [apply Hlt; left; reflexivity | constructor]].
 Qed.
 
-Lemma tinv_step t0 pre s l s' : TInv t0 pre s -> step D spe s l = Some s' -> TInv t0 (pre ++ [l]) s'.
+Lemma tinv_step t0 pre s l s' : TInv t0 pre s -> step D spe fm ff s l = Some s' -> TInv t0 (pre ++ [l]) s'.
 Proof.
-  intros [I1 I2 I3 I4 I5 I6 I7] H. destruct l as [dt|t sc outs|ep|].
+  intros [I1 I2 I3 I4 I5 I6 I7] H. destruct l as [dt|t sc outs|ep|hs hf|fs fd|].
   - simpl in H. injection H as <-. constructor; simpl; rewrite ?clock_after_snoc, ?last_tick_snoc, ?tick_slots_snoc, ?app_nil_r; try assumption; try lia.
     intros t Ht. destruct (I4 t Ht). split; [assumption | lia].
   - simpl in H. destruct (ticker_enabled D s && (t =? ticker_slot D s)) eqn:Een; [|discriminate].
     apply andb_true_iff in Een. destruct Een as [Een Et]. apply N.eqb_eq in Et.
     destruct (ticker_facts D spe HD Hs s t Een Et) as [Hge Hst].
-    destruct (sched_slot D spe _ t sc) as [[[s1 sc1] exp]|] eqn:Esch; [|discriminate].
+    destruct (sched_slot D spe fm _ t sc) as [[[s1 sc1] exp]|] eqn:Esch; [|discriminate].
     destruct sc1; [|discriminate]. destruct (same_set trig_eqb outs exp); [|discriminate]. injection H as <-.
     apply sched_slot_frame in Esch. simpl in Esch. destruct Esch as [E1 E2].
     constructor; rewrite ?clock_after_snoc, ?last_tick_snoc, ?tick_slots_snoc; try congruence.
@@ -1767,7 +2036,20 @@ Proof.
     { simpl in H. destruct (resolved s); [destruct (ep <? n)|]; injection H as <-; split; reflexivity. }
     destruct Hf as [E1 E2].
     constructor; rewrite ?clock_after_snoc, ?last_tick_snoc, ?tick_slots_snoc, ?app_nil_r, ?E1, ?E2; assumption.
-  - simpl in H. destruct (ticker_enabled D s); [discriminate|]. injection H as <-.
+  - assert (Hf : expect s' = expect s /\ now s' = now s).
+    { simpl in H. destruct (ff && flags_on fm && nonempty (fst (store s) (Attester, hs)) && negb (memN hs (eta s))).
+      - destruct hf as [defs|]; [|discriminate]. destruct (same_set def_eqb defs _); [|discriminate].
+        injection H as <-. split; reflexivity.
+      - destruct hf; [discriminate|]. injection H as <-. split; reflexivity. }
+    destruct Hf as [E1 E2].
+    constructor; rewrite ?clock_after_snoc, ?last_tick_snoc, ?tick_slots_snoc, ?app_nil_r, ?E1, ?E2; assumption.
+  - assert (Hf : expect s' = expect s /\ now s' = now s).
+    { simpl in H. destruct (find_w fs (pend s)) as [w|]; [|discriminate].
+      destruct ((w_due w <=? now s) && same_set def_eqb fd (w_defs w)); [|discriminate].
+      injection H as <-. split; reflexivity. }
+    destruct Hf as [E1 E2].
+    constructor; rewrite ?clock_after_snoc, ?last_tick_snoc, ?tick_slots_snoc, ?app_nil_r, ?E1, ?E2; assumption.
+  - simpl in H. destruct (ticker_enabled D s || negb (due_none (now s) (pend s))); [discriminate|]. injection H as <-.
     constructor; rewrite ?clock_after_snoc, ?last_tick_snoc, ?tick_slots_snoc, ?app_nil_r; assumption.
 Qed.
 
@@ -1778,24 +2060,24 @@ Proof.
 Qed.
 
 
-Lemma tinv_run t0 pre s ls s' : TInv t0 pre s -> run D spe s ls = Some s' -> TInv t0 (pre ++ ls) s'.
+Lemma tinv_run t0 pre s ls s' : TInv t0 pre s -> run D spe fm ff s ls = Some s' -> TInv t0 (pre ++ ls) s'.
 Proof.
   revert pre s. induction ls as [|l r IH]; intros pre s HI H; simpl in H.
   - injection H as <-. rewrite app_nil_r. exact HI.
-  - destruct (step D spe s l) as [s1|] eqn:Es; [|discriminate].
+  - destruct (step D spe fm ff s l) as [s1|] eqn:Es; [|discriminate].
     replace (pre ++ l :: r) with ((pre ++ [l]) ++ r) by (rewrite <- app_assoc; reflexivity).
     apply (IH _ s1); [apply (tinv_step _ _ s); assumption | exact H].
 Qed.
 
 Theorem ticker_monotone t0 ls s :
-  run D spe (init D t0) ls = Some s ->
+  run D spe fm ff (init D t0) ls = Some s ->
   StronglySorted N.lt (tick_slots ls) /\
   (forall pre t sc outs post, ls = pre ++ LTick t sc outs :: post -> t * D <= clock_after t0 pre /\ t0 / D <= t).
 Proof.
   intro H. split.
   - apply (ti_ss t0 _ s). apply (tinv_run t0 [] (init D t0) ls s (tinv_init t0) H).
   - intros pre t sc outs post ->. rewrite run_app in H.
-    destruct (run D spe (init D t0) pre) as [s1|] eqn:E1; [|discriminate].
+    destruct (run D spe fm ff (init D t0) pre) as [s1|] eqn:E1; [|discriminate].
     pose proof (tinv_run t0 [] _ pre s1 (tinv_init t0) E1) as [I1 I2 I3 I4 I5 I6 I7]. simpl in *.
     destruct (ticker_enabled D s1 && (t =? ticker_slot D s1)) eqn:Een; [|discriminate].
     apply andb_true_iff in Een. destruct Een as [Een Et]. apply N.eqb_eq in Et.
@@ -1804,11 +2086,11 @@ Qed.
 
 (* At a quiescent point the most recent tick is the tick of the current slot: no due tick is missing. *)
 Theorem quiet_current_slot_ticked t0 ls s pre post :
-  run D spe (init D t0) ls = Some s -> ls = pre ++ LQuiet :: post ->
+  run D spe fm ff (init D t0) ls = Some s -> ls = pre ++ LQuiet :: post ->
   last_tick pre None = Some (clock_after t0 pre / D).
 Proof.
   intros H ->. rewrite run_app in H.
-  destruct (run D spe (init D t0) pre) as [s1|] eqn:E1; [|discriminate].
+  destruct (run D spe fm ff (init D t0) pre) as [s1|] eqn:E1; [|discriminate].
   pose proof (tinv_run t0 [] _ pre s1 (tinv_init t0) E1) as [I1 I2 I3 I4 I5 I6 I7]. simpl in *.
   destruct (ticker_enabled D s1) eqn:Een; [discriminate|].
   unfold ticker_enabled in Een. apply N.leb_gt in Een. rewrite <- I1.
@@ -1820,7 +2102,7 @@ Qed.
 End Readings.
 
 (* A failed validators call changes nothing at all in the scheduler's state. *)
-Theorem resolve_vals_error_noop spe s slot r s' : r_vals r = None -> resolve spe s slot r = Some s' -> s' = s.
+Theorem resolve_vals_error_noop spe fm s slot r s' : r_vals r = None -> resolve spe fm s slot r = Some s' -> s' = s.
 Proof.
   intros Hv H. unfold resolve in H. rewrite Hv in H.
   destruct (none_call (r_att r) && none_call (r_pro r) && none_call (r_sync r)); [|discriminate].
@@ -1860,17 +2142,17 @@ Definition ex_trace : list label := [
   LQuiet ].
 
 Example ex_trace_accepted :
-  (exists s, run 12 4 (init 12 0) ex_trace = Some s) /\ wf_trace 4 ex_trace = true /\ monitor 12 4 0 ex_trace = true.
+  (exists s, run 12 4 FOff false (init 12 0) ex_trace = Some s) /\ wf_trace 4 ex_trace = true /\ monitor 12 4 FOff 0 ex_trace = true.
 Proof. split; [eexists; vm_compute; reflexivity | split; vm_compute; reflexivity]. Qed.
 
 (* Dropping the retry's first-wins rule, duplicating a trigger, or triggering with another deadline
    is rejected by the monitor. *)
 Example ex_duplicate_rejected :
-  monitor 12 4 0 (ex_trace ++ [LAdv 1; LTick 6 [] [T Attester 6 [(100, E 10 100 6 77)] (Some 76)]]) = false.
+  monitor 12 4 FOff 0 (ex_trace ++ [LAdv 1; LTick 6 [] [T Attester 6 [(100, E 10 100 6 77)] (Some 76)]]) = false.
 Proof. vm_compute. reflexivity. Qed.
 
 Example ex_overwrite_rejected :
-  monitor 12 4 0 [LTick 0 [R (Some ex_vals) (Some (C 0 [11; 10] (Some [E 10 100 1 906; E 11 101 1 381]))) (Some (C 0 [10; 11] None)) None] [];
+  monitor 12 4 FOff 0 [LTick 0 [R (Some ex_vals) (Some (C 0 [11; 10] (Some [E 10 100 1 906; E 11 101 1 381]))) (Some (C 0 [10; 11] None)) None] [];
                   LAdv 12;
                   LTick 1 [R (Some ex_vals) (Some (C 0 [10; 11] (Some [E 10 100 1 5]))) (Some (C 0 [10; 11] (Some []))) (Some (C 0 [10; 11] (Some [])))]
                           [T Attester 1 [(100, E 10 100 1 5); (101, E 11 101 1 381)] (Some 16);
@@ -1888,6 +2170,44 @@ Definition off_epoch_trace : list label := [
   LTick 13 [] [] ].
 
 Example off_epoch_answer_drops_duty :
-  (exists s, run 12 4 (init 12 0) off_epoch_trace = Some s) /\ wf_trace 4 off_epoch_trace = false
-  /\ monitor 12 4 0 off_epoch_trace = false.
+  (exists s, run 12 4 FOff false (init 12 0) off_epoch_trace = Some s) /\ wf_trace 4 off_epoch_trace = false
+  /\ monitor 12 4 FOff 0 off_epoch_trace = false.
 Proof. split; [eexists; vm_compute; reflexivity | split; vm_compute; reflexivity]. Qed.
+
+(* fetch_att_on_block enabled, fetch-only function registered. Slot 1's attester duty is resolved on
+   tick 0. A head event for slot 1 is handled after the ticker delivered slot 1 and before its duties are
+   dispatched (early fetch with the definition set); the attester duty then waits until 12 + 4 and is
+   released there -- not at the tick; a second head event for slot 1 after the release does nothing. *)
+Definition ex_flags_trace : list label := [
+  LTick 0 [R (Some ex_vals) (Some (C 0 [10; 11] (Some [E 10 100 1 906; E 11 101 1 381]))) (Some (C 0 [10; 11] (Some [])))
+             (Some (C 0 [10; 11] (Some [])))] [];
+  LQuiet; LHead 2 None; LAdv 12;
+  LHead 1 (Some [(101, E 11 101 1 381); (100, E 10 100 1 906)]);
+  LTick 1 [] [T Aggregator 1 [(100, E 10 100 1 906); (101, E 11 101 1 381)] (Some 20)];
+  LQuiet; LHead 1 None; LAdv 3; LQuiet; LAdv 1;
+  LFire 1 [(100, E 10 100 1 906); (101, E 11 101 1 381)];
+  LQuiet; LHead 1 None; LAdv 8; LTick 2 [] []; LQuiet ].
+
+Example ex_flags_trace_accepted :
+  (exists s, run 12 4 FOn true (init 12 0) ex_flags_trace = Some s) /\ wf_trace 4 ex_flags_trace = true
+  /\ monitor 12 4 FOn 0 ex_flags_trace = true.
+Proof. split; [eexists; vm_compute; reflexivity | split; vm_compute; reflexivity]. Qed.
+
+(* The same history with the attester subscribers called right at the tick of slot 1 (what a fast path
+   "the head event already came, nothing to wait for" produces) violates the property: the duty is
+   triggered 4 ns before its offset. *)
+Definition ex_flags_early_trace : list label := [
+  LTick 0 [R (Some ex_vals) (Some (C 0 [10; 11] (Some [E 10 100 1 906; E 11 101 1 381]))) (Some (C 0 [10; 11] (Some [])))
+             (Some (C 0 [10; 11] (Some [])))] [];
+  LQuiet; LAdv 12;
+  LHead 1 (Some [(101, E 11 101 1 381); (100, E 10 100 1 906)]);
+  LTick 1 [] [T Aggregator 1 [(100, E 10 100 1 906); (101, E 11 101 1 381)] (Some 20)];
+  LFire 1 [(100, E 10 100 1 906); (101, E 11 101 1 381)] ].
+
+Example ex_flags_early_release_rejected :
+  monitor 12 4 FOn 0 ex_flags_early_trace = false /\ run 12 4 FOn true (init 12 0) ex_flags_early_trace = None.
+Proof. split; vm_compute; reflexivity. Qed.
+
+(* With the with_delay flag the release is 300ms later. *)
+Example ex_delay_offset : att_offset 12000000000 FOnDelay = 4300000000 /\ att_offset 12000000000 FOn = 4000000000.
+Proof. split; vm_compute; reflexivity. Qed.
